@@ -11,7 +11,7 @@ package xmpp
 
 // Sessions are created by the constructors of this package, which allocate
 // the correlation table (assumed object invariant; not re-proved here).
-//@ assume-typeinv *Session: self.sentStanzas != nil
+//@ assume-typeinv *Session: self.sentStanzas != nil && self.features != nil && self.negotiated != nil
 // The reader/writer wrappers always carry their session.
 //@ assume-typeinv *lockWriteCloser: self.w != nil
 //@ assume-typeinv *lockReadCloser: self.s != nil
@@ -70,6 +70,8 @@ package xmpp
 //@   loop 1
 //@     invariant[C03] selected.Name == ""
 //@   loop 2
+//@     invariant[C01] forall k string :: visited1(k) && has(list.cache, k) && !has(s.negotiated, k) && negotiable(list.cache[k].feature, s.state) ==> list.cache[k].req && data.feature.Name.Local != ""
+//@     invariant[C01] data.feature.Name.Local != "" ==> data.req
 //@     invariant[C03] selected.Name == ""
 //@   loop 3
 //@     invariant[C03] !success
@@ -98,6 +100,8 @@ package xmpp
 //@   loop 1
 //@     invariant[C03] !more ==> stepOK
 //@   loop 2
+//@     invariant[C01] forall k string :: visited1(k) && has(list.cache, k) && !has(s.negotiated, k) && negotiable(list.cache[k].feature, s.state) ==> list.cache[k].req && data.feature.Name.Local != ""
+//@     invariant[C01] data.feature.Name.Local != "" ==> data.req
 //@     invariant[C03] selected.Name == "" || (selected.Name == selection.Name && (exists i int :: 0 <= i && i < len(mechanisms) && mechanisms[i].Name == selected.Name))
 
 // ---------------------------------------------------------------------------
@@ -278,3 +282,134 @@ package xmpp
 //@ nopanic [C09] unmarshalIQ
 //@ nopanic [C09] unmarshalIQ$1
 // END enrolment C09
+
+// ---------------------------------------------------------------------------
+// C01 / C02 / C04: stream feature negotiation.
+//
+// prereq: the feature's declared prerequisites hold in state st.
+//@ spec prereq(st SessionState, f StreamFeature) bool = st & f.Necessary == f.Necessary && st & f.Prohibited == 0
+// cached: a cache entry stored under namespace k is a configured feature of
+// that namespace whose prerequisites hold in state st.
+//@ spec cached(e sfData, k string, st SessionState) bool = e.feature.Name.Space == k && prereq(st, e.feature)
+
+// negotiable: the feature can be selected in state st.
+//@ spec negotiable(f StreamFeature, st SessionState) bool = f.Negotiate != nil && prereq(st, f)
+
+// Callbacks of configured features. The frame part (the callback does not
+// touch the negotiation bookkeeping of the session) is an assumption for
+// user-supplied features and is proved for the built-in ones below.
+//@ funcfield StreamFeature.Negotiate
+//@   ensures unchanged(session.state) && unchanged(session.negotiated) && unchanged(session.features) && unchanged(session.in.d)
+
+// Parse callbacks read the feature element; they leave the start element they
+// are handed as it is (assumed).
+//@ funcfield StreamFeature.Parse
+//@   ensures *start == old(*start)
+
+// Receiving side: the advertisement contains exactly the configured features
+// whose prerequisites hold; List is called for those and no others.
+//@ func writeStreamFeatures
+//@   ensures[C01,C02,C04] unchanged(s.state) && unchanged(s.negotiated) && unchanged(s.features) && unchanged(s.in.d) && unchanged(features)
+//@   ensures[C01,C04] err == nil ==> list != nil && list.cache != nil
+//@   ensures[C01] err == nil ==> forall k string :: has(list.cache, k) ==> cached(list.cache[k], k, s.state) && (list.cache[k].req ==> list.req)
+//@   ensures[C01] err == nil ==> forall k string :: has(list.cache, k) ==> exists i int :: 0 <= i && i < len(features) && features[i] == list.cache[k].feature
+//@   ensures[C01] err == nil ==> forall i int :: 0 <= i && i < len(features) && prereq(s.state, features[i]) ==> has(list.cache, features[i].Name.Space)
+//@   callsite field:StreamFeature.List#1
+//@     assert[C01] prereq(s.state, self)
+//@     preserves s.state, s.negotiated, s.features, s.in.d, list, list.cache, list.req, list.total, features
+//@   callsite (mellium.im/xmlstream.TokenWriteFlushCloser).EncodeToken#*
+//@     preserves s.state, s.negotiated, s.features, s.in.d, list, list.cache, list.req, list.total, features
+//@   callsite (mellium.im/xmlstream.TokenWriteFlushCloser).Flush#*
+//@     preserves s.state, s.negotiated, s.features, s.in.d, list, list.cache, list.req, list.total, features
+//@   callsite (mellium.im/xmlstream.TokenWriteFlushCloser).Close#*
+//@     preserves s.state, s.negotiated, s.features, s.in.d, list, list.cache, list.req, list.total, features
+//@   loop 1
+//@     invariant[C01,C02,C04] unchanged(s.state) && unchanged(s.negotiated) && unchanged(s.features) && unchanged(s.in.d) && unchanged(features)
+//@     invariant[C01,C04] list != nil && list.cache != nil
+//@     invariant[C01] forall k string :: has(list.cache, k) ==> cached(list.cache[k], k, s.state) && (list.cache[k].req ==> list.req)
+//@     invariant[C01] forall k string :: has(list.cache, k) ==> exists i int :: 0 <= i && i < len(features) && features[i] == list.cache[k].feature
+//@     invariant[C01] forall j int :: 0 <= j && j <= rangeindex && prereq(s.state, features[j]) ==> has(list.cache, features[j].Name.Space)
+
+//@ func getFeature
+//@   ensures[C01] ok ==> feature.Name == name && exists i int :: 0 <= i && i < len(features) && features[i] == feature
+
+// Initiating side: every cached entry is a configured feature of the cached
+// namespace whose prerequisites hold; a mandatory entry makes the list
+// mandatory; an empty advertisement has an empty cache.
+//@ func readStreamFeatures
+//@   ensures[C01,C02,C04] unchanged(s.state) && unchanged(s.negotiated) && unchanged(s.in.d) && unchanged(features)
+//@   ensures[C01,C04] result1 == nil ==> result0 != nil && result0.cache != nil && result0.total >= 0
+//@   ensures[C01] result1 == nil ==> forall k string :: has(result0.cache, k) ==> cached(result0.cache[k], k, s.state) && (result0.cache[k].req ==> result0.req) && result0.total > 0 && result0.cache[k].feature.Name.Local != ""
+//@   ensures[C01] result1 == nil ==> forall k string :: has(result0.cache, k) ==> exists i int :: 0 <= i && i < len(features) && features[i] == result0.cache[k].feature
+//@   callsite (encoding/xml.TokenReader).Token#*
+//@     preserves s.state, s.negotiated, s.in.d, sf, sf.cache, sf.req, sf.total, features
+//@     assume[C01] typeof(ret0) == xml.StartElement ==> ret0.(xml.StartElement).Name.Local != ""
+//@   callsite nextElementDecoder#*
+//@     preserves s.state, s.negotiated, s.in.d, sf, sf.cache, sf.req, sf.total, features
+//@   callsite field:StreamFeature.Parse#1
+//@     preserves s.state, s.negotiated, s.in.d, sf, sf.cache, sf.req, sf.total, features
+//@   callsite mellium.im/xmlstream.Copy#*
+//@     preserves s.state, s.negotiated, s.in.d, sf, sf.cache, sf.req, sf.total, features
+//@   loop 1
+//@     invariant[C01,C02,C04] unchanged(s.state) && unchanged(s.negotiated) && unchanged(s.in.d) && unchanged(features)
+//@     invariant[C01,C04] sf != nil && sf.cache != nil && sf.total >= 0
+//@     invariant[C01] forall k string :: has(sf.cache, k) ==> cached(sf.cache[k], k, s.state) && (sf.cache[k].req ==> sf.req) && sf.total > 0 && sf.cache[k].feature.Name.Local != ""
+//@     invariant[C01] forall k string :: has(sf.cache, k) ==> exists i int :: 0 <= i && i < len(features) && features[i] == sf.cache[k].feature
+
+//@ func prerequisitesHold
+//@   ensures result == prereq(state, feature)
+
+//@ func containsStartTLS
+//@   ensures[C01,C02] ok ==> startTLS.Name.Space == ns.StartTLS && exists i int :: 0 <= i && i < len(features) && features[i] == startTLS
+//@   ensures[C02] !ok ==> forall i int :: 0 <= i && i < len(features) ==> features[i].Name.Space != ns.StartTLS
+//@   loop 1
+//@     invariant[C02] forall j int :: 0 <= j && j <= rangeindex ==> features[j].Name.Space != ns.StartTLS
+
+//@ func (*Session).State
+//@   pure
+//@   ensures result == s.state
+
+// One round of feature negotiation.
+//@ func negotiateFeatures
+//@   requires[C01] first ==> forall k string :: !has(s.negotiated, k)
+//@   requires[C01,C02] forall i int :: 0 <= i && i < len(features) ==> features[i].Name.Local != ""
+//@   ghost stepErr bool = false
+//@   ghost steps int = 0
+//@   ghost okMask SessionState = 0
+//@   ghost lastMask SessionState = 0
+//@   callsite (encoding/xml.TokenReader).Token#*
+//@     preserves s.state, s.negotiated, s.features, s.in.d, list, list.cache, list.req, list.total, features
+//@   callsite decodeStreamErr#1
+//@     preserves s.state, s.negotiated, s.features, s.in.d, features
+//@   callsite field:StreamFeature.Negotiate#1
+//@     assert[C01] prereq(s.state, self)
+//@     assert[C01] self.Negotiate != nil
+//@     assert[C01] !has(s.negotiated, self.Name.Space)
+//@     assert[C01] (has(list.cache, self.Name.Space) && list.cache[self.Name.Space].feature == self) || (!server && first && s.state & Secure == 0 && self.Name.Space == ns.StartTLS)
+//@     assert[C01] exists i int :: 0 <= i && i < len(features) && features[i] == self
+//@     assert[C01] !server && !(doStartTLS && startTLS.Name.Space == ns.StartTLS) && data.req ==> forall k string :: has(list.cache, k) && !has(s.negotiated, k) && negotiable(list.cache[k].feature, s.state) ==> list.cache[k].req
+//@     assert[C04] !stepErr
+//@     preserves list, list.cache, list.req, list.total, features
+//@     after: stepErr = ret2 != nil
+//@     after: steps = steps + 1
+//@     after: lastMask = ret0
+//@     after: okMask = okMask | ite(ret2 == nil, ret0, 0)
+//@   ensures[C01] s.state & old(s.state) == old(s.state)
+//@   ensures[C04] stepErr ==> err != nil
+//@   ensures[C01] err == nil && !server && mask & Ready != 0 && lastMask & Ready == 0 ==> forall k string :: has(list.cache, k) && !has(s.negotiated, k) && negotiable(list.cache[k].feature, s.state) ==> !list.cache[k].req
+//@   ensures[C01] err == nil && server && mask & Ready != 0 && lastMask & Ready == 0 ==> !list.req
+//@   ensures[C01,C04] s.state == old(s.state) | okMask
+//@   loop 1
+//@     invariant[C01,C02,C04] list != nil && list.cache != nil
+//@     invariant[C01] s.state & old(s.state) == old(s.state)
+//@     invariant[C01,C02,C04] unchanged(s.in.d)
+//@     invariant[C01] forall k string :: has(list.cache, k) ==> list.cache[k].feature.Name.Space == k && (list.cache[k].req ==> list.req)
+//@     invariant[C01] forall k string :: has(list.cache, k) ==> exists i int :: 0 <= i && i < len(features) && features[i] == list.cache[k].feature
+//@     invariant[C01] !server ==> forall k string :: has(list.cache, k) ==> list.cache[k].feature.Name.Local != ""
+//@     invariant[C01] !server && doStartTLS ==> first && steps == 0 && startTLS.Name.Space == ns.StartTLS && s.state & Secure == 0 && prereq(s.state, startTLS) && startTLS.Negotiate != nil && !has(s.negotiated, ns.StartTLS) && exists i int :: 0 <= i && i < len(features) && features[i] == startTLS
+//@     invariant[C04] !stepErr
+//@     invariant[C01,C04] s.state == old(s.state) | okMask
+//@   loop 2
+//@     invariant[C01] forall k string :: visited1(k) && has(list.cache, k) && !has(s.negotiated, k) && negotiable(list.cache[k].feature, s.state) ==> list.cache[k].req && data.feature.Name.Local != ""
+//@     invariant[C01] data.feature.Name.Local != "" ==> data.req
+//@     invariant[C01] data.feature.Name.Local != "" ==> has(list.cache, data.feature.Name.Space) && list.cache[data.feature.Name.Space] == data && !has(s.negotiated, data.feature.Name.Space) && data.feature.Negotiate != nil && prereq(s.state, data.feature)
